@@ -384,6 +384,33 @@ pub fn run(ctx: &Ctx) -> (Stats, Report) {
             }
         }
     }
+    // blank runs alternating with other tokens around the limit (as many separate blank runs as a
+    // picture can hold: 18 with a leading or trailing one), for several word lists and run lengths
+    {
+        let words = ["YYYY", "MM", "DD", "HH24", "MI", "SS", "FF3", "DAY", "MONTH", "DDD", "D", "WW", "W", "DY", "MON", "YY", "-", "/", "AM", ":", "T", "."];
+        for nwords in 14..=20usize {
+            for lead in [0usize, 1, 3] {
+                for trail in [0usize, 1, 2] {
+                    for (gap, rot) in [(1usize, 0usize), (2, 5), (7, 11)] {
+                        let mut pic = " ".repeat(lead);
+                        for k in 0..nwords {
+                            if k > 0 {
+                                pic.push_str(&" ".repeat(gap));
+                            }
+                            pic.push_str(words[(k + rot) % words.len()]);
+                        }
+                        pic.push_str(&" ".repeat(trail));
+                        st.evaluations += 1;
+                        st.fps.push(hash_bytes(19, pic.as_bytes()));
+                        st.class("blank-runs-alternating-with-tokens-at-the-limit");
+                        if let Err(m) = check_picture(&pic) {
+                            st.fail(nwords as u64, Case::new(P, "picture", vec![], vec![pic]), m);
+                        }
+                    }
+                }
+            }
+        }
+    }
     st.section("near_misses_blank_runs_limits", &mut mark);
 
     // every letter-case pattern of every name / meridian token, alone and embedded, against
@@ -488,7 +515,7 @@ pub fn run(ctx: &Ctx) -> (Stats, Report) {
     st.section("random_token_sequences", &mut mark);
 
     let rep = Report {
-        rule: format!("E1: every string of length 0..={maxlen} over the {}-symbol picture alphabet (exhaustive); near-miss spellings alone and embedded; every single-character substitution, insertion (all 128 ASCII values, also inside a token spelling) and deletion at every position of every token spelling and of composite pictures; 14 invisible / ignorable characters (byte order mark, zero-width and non-breaking spaces, separators, control whitespace) at every token boundary of valid pictures; blank runs of every length 1..=700 (alone, between number tokens, and next to name tokens for every month / weekday name) and of length 2^k-1, 2^k, 2^k+1 for k = 8..=20, 2^k+1 up to 2^25 (all three up to 2^27 in the thorough tier: pictures of 128 MiB); 30..=42 repetitions of every documented token spelling (and of token + separator pairs) around the 36-token limit. E2: proptest token sequences of 0..=40 tokens (34..=38 over-sampled) with random letter case, blank runs up to 600 and an optional near-miss spelling spliced in. Every rendering goes through both Formatter::format and T::format + write!, and the one-shot Timestamp::parse wrapper must not reject an accepted picture as a format error. Oracle: reference longest-match tokenizer: try_new is Ok iff it accepts (<= 36 tokens), rejection must be Error::InvalidFormat, from Formatter::try_new and from the one-shot parse / format wrappers of all six types (the parse wrappers with an ASCII text and a second text rotating over empty, blank, non-ASCII and long inputs); for accepted pictures the text formatted for the probe 2003-04-09 17:28:56.123456 (every field distinct) must equal the reference rendering of the reference token list (identifies token identity, name case and exact blank-run length); every letter-case pattern of MONTH / MON / DAY / DY / AM / PM / A.M. / P.M. (alone, doubled, embedded) is formatted for 19 probes covering every month name, every weekday name and both meridians. Run under both build profiles. Non-trivial = accepted by the reference, or rejected but one end-deletion away from an accepted picture, or containing a near-miss spelling.", ALPHABET.len()),
+        rule: format!("E1: every string of length 0..={maxlen} over the {}-symbol picture alphabet (exhaustive); near-miss spellings alone and embedded; every single-character substitution, insertion (all 128 ASCII values, also inside a token spelling) and deletion at every position of every token spelling and of composite pictures; 14 invisible / ignorable characters (byte order mark, zero-width and non-breaking spaces, separators, control whitespace) at every token boundary of valid pictures; blank runs of every length 1..=700 (alone, between number tokens, and next to name tokens for every month / weekday name) and of length 2^k-1, 2^k, 2^k+1 for k = 8..=20, 2^k+1 up to 2^25 (all three up to 2^27 in the thorough tier: pictures of 128 MiB); 30..=42 repetitions of every documented token spelling (and of token + separator pairs) around the 36-token limit, and 14..=20 words alternating with blank runs (with and without a leading / trailing run: up to 18 separate blank runs in a valid picture). E2: proptest token sequences of 0..=40 tokens (34..=38 over-sampled) with random letter case, blank runs up to 600 and an optional near-miss spelling spliced in. Every rendering goes through both Formatter::format and T::format + write!, and the one-shot Timestamp::parse wrapper must not reject an accepted picture as a format error. Oracle: reference longest-match tokenizer: try_new is Ok iff it accepts (<= 36 tokens), rejection must be Error::InvalidFormat, from Formatter::try_new and from the one-shot parse / format wrappers of all six types (the parse wrappers with an ASCII text and a second text rotating over empty, blank, non-ASCII and long inputs); for accepted pictures the text formatted for the probe 2003-04-09 17:28:56.123456 (every field distinct) must equal the reference rendering of the reference token list (identifies token identity, name case and exact blank-run length); every letter-case pattern of MONTH / MON / DAY / DY / AM / PM / A.M. / P.M. (alone, doubled, embedded) is formatted for 19 probes covering every month name, every weekday name and both meridians. Run under both build profiles. Non-trivial = accepted by the reference, or rejected but one end-deletion away from an accepted picture, or containing a near-miss spelling.", ALPHABET.len()),
         assumptions: vec!["a name token with lower-case first and upper-case second letter, and a mixed-case meridian token, have no style fixed by the statement: compared ignoring case".into()],
         exhaustive: false,
         extra: Default::default(),
